@@ -78,7 +78,7 @@ def _get_all_inherited(t: Type) -> List[Type]:
     real_bases = [
         b
         for b in base_classes  # type: ignore
-        if not (b is typing.Generic or get_origin(b) is typing.Generic)
+        if not (b is typing.Generic or get_origin(b) in (typing.Generic, typing.Protocol))
     ]
     return [_with_arguments_of(t, r) for r in real_bases]
 
